@@ -187,8 +187,8 @@ func (g *gen) strBody(q byte, n int) string {
 		}
 	}
 	s := b.String()
-	if (prevDollar || prevNul) && !g.known {
-		s += "z" // a following "+'{...'" / "+'1..'" would be merged into "${" (K09) or "\01" (N09)
+	if prevDollar && !g.known {
+		s += "z" // a following "+'{...'" would be merged into "${" (K09); a NUL escape before "+'1..'" (N09) is repaired
 	}
 	if q == '`' && strings.HasSuffix(s, "$") {
 		// harmless, but keep things simple
